@@ -305,6 +305,28 @@ def rule_r6(ctx):
     rr.floor = 3
     entry = ctx.tmpl.pending_by_kind("Assign")
     seen = set()
+    # the whole right-hand side is evaluated before the first store: no part of the value may be
+    # evaluated inside a repetition that also stores a target (element j after the store of target j-1)
+    inter = False
+    for pr in entry.ok_paths():
+        evs, _w = path_events(pr)
+        from .c07 import _at_most_once
+
+        def real(m):
+            # a list the path knows to have at most one element is not a repetition
+            return tuple(x for x in m if not _at_most_once(pr, x))
+
+        vals = [e for e in evs if e.kind in ("X", "raw") and re.match(r"(Ann)?Assign\.value\b", e.path or "") and real(e.mult)]
+        stores = [e for e in evs if e.kind == "store" and real(e.mult)]
+        for v in vals:
+            if any(real(st.mult)[: len(real(v.mult))] == real(v.mult) for st in stores) and not inter:
+                inter = True
+                rr.instances += 1
+                rr.fail(
+                    "C13-R6|Assign|value-interleaved-with-stores",
+                    f"PendingAssign ({v.site}): {v.path} is evaluated once per element of {v.mult[-1]}, in the same repetition that stores the targets: element j of the right-hand side is evaluated AFTER target j-1 was stored. Python evaluates the whole right-hand side first: `a, b = b, a` with a and b in a converter-managed dict (captured by a nested function, class body) gives (b, b); a later element that calls something reading an earlier target sees the new value [context: {short_ctx(pr, 100)}]",
+                    where=str(v.site), what="Assign|value-before-stores",
+                )
     for pr in entry.ok_paths():
         later = any(k.startswith("loopcarried:") and v == "later" for k, v in pr.assign.items())
         for t in iter_tnodes(pr.result):
